@@ -20,18 +20,33 @@ macro_rules! harness {
 pub fn run_replay(name: &str, vals: Vec<Vec<u8>>) {
     let mut s = ReplaySrc::new(vals);
     match name {
-        "c28_from_str_len6" => c28_from_str_len6_body(&mut s),
+        "c28_from_str_integer" => c28_from_str_integer_body(&mut s),
+        "c28_from_str_string" => c28_from_str_string_body(&mut s),
+        "c28_from_str_bytes" => c28_from_str_bytes_body(&mut s),
+        "c28_from_str_ruid_short" => c28_from_str_ruid_short_body(&mut s),
+        "c28_from_str_unbracketed" => c28_from_str_unbracketed_body(&mut s),
+        "c28_from_str_non_ascii" => c28_from_str_non_ascii_body(&mut s),
         "c28_integer_text_20_digits" => c28_integer_text_20_digits_body(&mut s),
-        "c28_integer_text_noncanonical" => c28_integer_text_noncanonical_body(&mut s),
         "c28_text_roundtrip_integer" => c28_text_roundtrip_integer_body(&mut s),
         "c28_text_roundtrip_string" => c28_text_roundtrip_string_body(&mut s),
         "c28_text_roundtrip_bytes" => c28_text_roundtrip_bytes_body(&mut s),
         "c28_text_roundtrip_ruid" => c28_text_roundtrip_ruid_body(&mut s),
-        "c28_binary_roundtrip" => c28_binary_roundtrip_body(&mut s),
+        "c28_binary_roundtrip_string" => c28_binary_roundtrip_string_body(&mut s),
+        "c28_binary_roundtrip_integer" => c28_binary_roundtrip_integer_body(&mut s),
+        "c28_binary_roundtrip_bytes" => c28_binary_roundtrip_bytes_body(&mut s),
+        "c28_binary_roundtrip_ruid" => c28_binary_roundtrip_ruid_body(&mut s),
         "c28_binary_decode_total" => c28_binary_decode_total_body(&mut s),
         "c28_constructors_bytes" => c28_constructors_bytes_body(&mut s),
         _ => panic!("unknown harness {}", name),
     }
+}
+
+/// ASCII bytes are valid UTF-8 (each is a one-byte scalar), so the std validator -- very expensive for
+/// CBMC on symbolic input -- is skipped when the harness has ASSUMED every byte < 0x80.
+fn ascii_str(b: &[u8]) -> &str {
+    let mut i = 0;
+    while i < b.len() { assert!(b[i] < 0x80); i += 1; }
+    unsafe { core::str::from_utf8_unchecked(b) }
 }
 
 // ---- reference grammar (written from the property / the doc comments, not from the parser) --------
@@ -55,40 +70,100 @@ fn decimal_value(d: &[u8]) -> u128 {
 fn all_ok_bytes(d: &[u8]) -> bool { let mut i = 0; while i < d.len() { if !ok_byte(d[i]) { return false; } i += 1; } true }
 fn all_hex(d: &[u8]) -> bool { let mut i = 0; while i < d.len() { if hex_val(d[i]).is_none() { return false; } i += 1; } true }
 
-/// C28 text parser, BOUNDED: every byte string of length <= 6 that is valid UTF-8.
-/// `NonFungibleLocalId::from_str` never panics, and is Ok EXACTLY on the texts of the id grammar
-/// (`<[_0-9a-zA-Z]+>`, `#canonical decimal#`, `[hex pairs]`; a RUID text needs 69 bytes), returning
-/// the id that the text denotes.
-fn c28_from_str_len6_body<S: Src>(s: &mut S) {
-    let b: [u8; 6] = s.bytes::<6>();
-    let len = s.u8() as usize;
-    s.assume(len <= 6);
-    if let Ok(text) = core::str::from_utf8(&b[..len]) {
-        let r = NonFungibleLocalId::from_str(text);
-        let bracketed = len >= 2;
-        let (first, last) = if bracketed { (b[0], b[len - 1]) } else { (0, 0) };
-        let inner: &[u8] = if bracketed { &b[1..len - 1] } else { &b[0..0] };
-        let is_string = bracketed && first == b'<' && last == b'>' && !inner.is_empty() && all_ok_bytes(inner);
-        let is_integer = bracketed && first == b'#' && last == b'#' && canonical_decimal(inner);
-        let is_bytes = bracketed && first == b'[' && last == b']' && !inner.is_empty() && inner.len() % 2 == 0 && all_hex(inner);
-        match r {
-            Ok(NonFungibleLocalId::String(v)) => { assert!(is_string); assert!(v.value().as_bytes() == inner); }
-            Ok(NonFungibleLocalId::Integer(v)) => { assert!(is_integer); assert!(v.value() as u128 == decimal_value(inner)); }
-            Ok(NonFungibleLocalId::Bytes(v)) => {
-                assert!(is_bytes);
-                assert!(v.value().len() == inner.len() / 2);
-                let mut i = 0;
-                while i < v.value().len() {
-                    assert!(v.value()[i] == (hex_val(inner[2 * i]).unwrap() << 4 | hex_val(inner[2 * i + 1]).unwrap()));
-                    i += 1;
-                }
+/// shared check: `from_str(text)` is Ok EXACTLY on the texts of the id grammar (`<[_0-9a-zA-Z]+>`,
+/// `#canonical decimal#`, `[hex pairs]`; a RUID text needs 69 bytes and is out of every bound used here)
+/// and returns the id the text denotes. `b` are the bytes of `text`.
+fn check_from_str(b: &[u8], text: &str) {
+    let len = b.len();
+    let r = NonFungibleLocalId::from_str(text);
+    let bracketed = len >= 2;
+    let (first, last) = if bracketed { (b[0], b[len - 1]) } else { (0, 0) };
+    let inner: &[u8] = if bracketed { &b[1..len - 1] } else { &b[0..0] };
+    let is_string = bracketed && first == b'<' && last == b'>' && !inner.is_empty() && all_ok_bytes(inner);
+    let is_integer = bracketed && first == b'#' && last == b'#' && canonical_decimal(inner);
+    let is_bytes = bracketed && first == b'[' && last == b']' && !inner.is_empty() && inner.len() % 2 == 0 && all_hex(inner);
+    match r {
+        Ok(NonFungibleLocalId::String(v)) => { assert!(is_string); assert!(v.value().as_bytes() == inner); }
+        Ok(NonFungibleLocalId::Integer(v)) => { assert!(is_integer); assert!(v.value() as u128 == decimal_value(inner)); }
+        Ok(NonFungibleLocalId::Bytes(v)) => {
+            assert!(is_bytes);
+            assert!(v.value().len() == inner.len() / 2);
+            let mut i = 0;
+            while i < v.value().len() {
+                assert!(v.value()[i] == (hex_val(inner[2 * i]).unwrap() << 4 | hex_val(inner[2 * i + 1]).unwrap()));
+                i += 1;
             }
-            Ok(NonFungibleLocalId::RUID(_)) => assert!(false),
-            Err(_) => assert!(!is_string && !is_integer && !is_bytes),
+        }
+        Ok(NonFungibleLocalId::RUID(_)) => assert!(false),
+        Err(e) => {
+            assert!(!is_string && !is_integer && !is_bytes);
+            if bracketed && first == b'#' && last == b'#' { assert!(e == ParseNonFungibleLocalIdError::InvalidInteger); }
         }
     }
 }
-harness!(c28_from_str_len6, 8, c28_from_str_len6_body);
+
+fn bracketed_body<S: Src, const N: usize>(s: &mut S, open: u8, close: u8) {
+    // text = open + (n <= N arbitrary ASCII bytes) + close
+    let d: [u8; N] = s.bytes::<N>();
+    let n = s.u8() as usize;
+    s.assume(n <= N);
+    let mut t = [close; 8];
+    t[0] = open;
+    let mut j = 0;
+    while j < n { s.assume(d[j] < 0x80); t[1 + j] = d[j]; j += 1; }
+    check_from_str(&t[..n + 2], ascii_str(&t[..n + 2]));
+}
+/// C28 integer text, BOUNDED: `#` + any 0..=3 ASCII bytes + `#`: accepted iff the inner text is canonical
+/// decimal ("+1", "01", " 1", "1 ", "" are all InvalidInteger) and then denotes its value; never panics.
+fn c28_from_str_integer_body<S: Src>(s: &mut S) { bracketed_body::<S, 3>(s, b'#', b'#') }
+harness!(c28_from_str_integer, 6, c28_from_str_integer_body);
+/// C28 string text, BOUNDED: `<` + any 0..=3 ASCII bytes + `>`: accepted iff the inner text is 1..=3
+/// characters of `[_0-9a-zA-Z]`; never panics.
+fn c28_from_str_string_body<S: Src>(s: &mut S) { bracketed_body::<S, 3>(s, b'<', b'>') }
+harness!(c28_from_str_string, 6, c28_from_str_string_body);
+/// C28 bytes text, BOUNDED: `[` + any 0..=4 ASCII bytes + `]`: accepted iff the inner text is one or two hex
+/// pairs (either case), denoting those bytes; never panics.
+fn c28_from_str_bytes_body<S: Src>(s: &mut S) { bracketed_body::<S, 4>(s, b'[', b']') }
+harness!(c28_from_str_bytes, 7, c28_from_str_bytes_body);
+/// C28 RUID text, BOUNDED: `{` + any 0..=3 ASCII bytes + `}` is rejected (a RUID text has 67 inner characters); never panics.
+fn c28_from_str_ruid_short_body<S: Src>(s: &mut S) { bracketed_body::<S, 3>(s, b'{', b'}') }
+harness!(c28_from_str_ruid_short, 6, c28_from_str_ruid_short_body);
+
+/// C28 text parser, BOUNDED: every ASCII string of length <= 3 whose first/last bytes are NOT a matching
+/// bracket pair (`<>`, `##`, `[]`, `{}`) is rejected with UnknownType (includes "", "#", "<", "[1>"); never panics.
+fn c28_from_str_unbracketed_body<S: Src>(s: &mut S) {
+    let b: [u8; 3] = s.bytes::<3>();
+    let len = s.u8() as usize;
+    s.assume(len <= 3);
+    let mut i = 0;
+    while i < len { s.assume(b[i] < 0x80); i += 1; }
+    let pair = len >= 1 && matches!((b[0], b[len - 1]), (b'<', b'>') | (b'#', b'#') | (b'[', b']') | (b'{', b'}'));
+    // "#" alone starts and ends with '#': the parser demands len > 1 for integers, the others cannot match with one char
+    let matched = pair && len >= 2;
+    s.assume(!matched);
+    assert!(NonFungibleLocalId::from_str(ascii_str(&b[..len])) == Err(ParseNonFungibleLocalIdError::UnknownType));
+}
+harness!(c28_from_str_unbracketed, 5, c28_from_str_unbracketed_body);
+
+/// C28 text parser and NON-ASCII text, BOUNDED: texts `o c x` / `o c` / `c x` / `c` where o, x are optional
+/// ASCII bytes and c is any two-byte UTF-8 character (U+0080..U+07FF): never panics (no slicing inside a
+/// character) and never accepted (no id text contains a non-ASCII character).
+fn c28_from_str_non_ascii_body<S: Src>(s: &mut S) {
+    let lead = s.u8(); let cont = s.u8();
+    s.assume(0xC2 <= lead && lead <= 0xDF && 0x80 <= cont && cont <= 0xBF);
+    let (o, x) = (s.u8(), s.u8());
+    s.assume(o < 0x80 && x < 0x80);
+    let (has_o, has_x) = (s.bool(), s.bool());
+    let mut t = [0u8; 4];
+    let mut n = 0;
+    if has_o { t[n] = o; n += 1; }
+    t[n] = lead; t[n + 1] = cont; n += 2;
+    if has_x { t[n] = x; n += 1; }
+    // valid UTF-8 by construction: ASCII bytes and one well-formed two-byte sequence
+    let text = unsafe { core::str::from_utf8_unchecked(&t[..n]) };
+    assert!(NonFungibleLocalId::from_str(text).is_err());
+}
+harness!(c28_from_str_non_ascii, 6, c28_from_str_non_ascii_body);
 
 /// C28 integer text, BOUNDED to exactly 20 decimal digits with a non-zero first digit (the only length
 /// at which u64 overflow can happen): `#d1..d20#` is accepted iff its value fits u64, and then denotes it.
@@ -100,7 +175,7 @@ fn c28_integer_text_20_digits_body<S: Src>(s: &mut S) {
     let mut t = [b'#'; 22];
     let mut j = 0;
     while j < 20 { t[1 + j] = d[j]; j += 1; }
-    let text = core::str::from_utf8(&t).unwrap();
+    let text = ascii_str(&t);
     let v = decimal_value(&d);
     match NonFungibleLocalId::from_str(text) {
         Ok(NonFungibleLocalId::Integer(x)) => { assert!(v <= u64::MAX as u128); assert!(x.value() as u128 == v); }
@@ -110,47 +185,28 @@ fn c28_integer_text_20_digits_body<S: Src>(s: &mut S) {
 }
 harness!(c28_integer_text_20_digits, 24, c28_integer_text_20_digits_body);
 
-/// C28 integer text, BOUNDED: `#` + any 1..=4 bytes forming valid UTF-8 + `#`: accepted iff the inner
-/// text is canonical decimal ("+1", "01", " 1", "1 ", "" are all InvalidInteger), never panics.
-fn c28_integer_text_noncanonical_body<S: Src>(s: &mut S) {
-    let d: [u8; 4] = s.bytes::<4>();
-    let n = s.u8() as usize;
-    s.assume(n <= 4);
-    let mut t = [b'#'; 6];
-    let mut j = 0;
-    while j < n { t[1 + j] = d[j]; j += 1; }
-    if let Ok(text) = core::str::from_utf8(&t[..n + 2]) {
-        match NonFungibleLocalId::from_str(text) {
-            Ok(NonFungibleLocalId::Integer(x)) => { assert!(canonical_decimal(&d[..n])); assert!(x.value() as u128 == decimal_value(&d[..n])); }
-            Ok(_) => assert!(false),
-            Err(e) => { assert!(!canonical_decimal(&d[..n])); assert!(e == ParseNonFungibleLocalIdError::InvalidInteger); }
-        }
-    }
-}
-harness!(c28_integer_text_noncanonical, 8, c28_integer_text_noncanonical_body);
-
-/// C28 text round trip, integer ids (BOUNDED: values < 100000): Display then FromStr gives the id back.
+/// C28 text round trip, integer ids (BOUNDED: values < 1000): Display then FromStr gives the id back.
 fn c28_text_roundtrip_integer_body<S: Src>(s: &mut S) {
     let v = s.u64();
-    s.assume(v < 100_000);
+    s.assume(v < 1000);
     let id = NonFungibleLocalId::integer(v);
     let text = id.to_string();
     assert!(NonFungibleLocalId::from_str(&text) == Ok(id));
 }
-harness!(c28_text_roundtrip_integer, 12, c28_text_roundtrip_integer_body);
+harness!(c28_text_roundtrip_integer, 8, c28_text_roundtrip_integer_body);
 
-/// C28 text round trip, string ids (BOUNDED: 1..=3 characters of the allowed alphabet)
+/// C28 text round trip, string ids (BOUNDED: 1..=2 characters of the allowed alphabet)
 fn c28_text_roundtrip_string_body<S: Src>(s: &mut S) {
-    let d: [u8; 3] = s.bytes::<3>();
+    let d: [u8; 2] = s.bytes::<2>();
     let n = s.u8() as usize;
-    s.assume(1 <= n && n <= 3);
+    s.assume(1 <= n && n <= 2);
     let mut i = 0;
     while i < n { s.assume(ok_byte(d[i])); i += 1; }
-    let id = NonFungibleLocalId::string(core::str::from_utf8(&d[..n]).unwrap()).unwrap();
+    let id = NonFungibleLocalId::string(ascii_str(&d[..n])).unwrap();
     let text = id.to_string();
     assert!(NonFungibleLocalId::from_str(&text) == Ok(id));
 }
-harness!(c28_text_roundtrip_string, 8, c28_text_roundtrip_string_body);
+harness!(c28_text_roundtrip_string, 6, c28_text_roundtrip_string_body);
 
 /// C28 text round trip, bytes ids (BOUNDED: 1..=2 arbitrary bytes)
 fn c28_text_roundtrip_bytes_body<S: Src>(s: &mut S) {
@@ -161,7 +217,7 @@ fn c28_text_roundtrip_bytes_body<S: Src>(s: &mut S) {
     let text = id.to_string();
     assert!(NonFungibleLocalId::from_str(&text) == Ok(id));
 }
-harness!(c28_text_roundtrip_bytes, 8, c28_text_roundtrip_bytes_body);
+harness!(c28_text_roundtrip_bytes, 7, c28_text_roundtrip_bytes_body);
 
 /// C28 text round trip, RUID ids (all 32 bytes symbolic: complete for this variant if it terminates)
 fn c28_text_roundtrip_ruid_body<S: Src>(s: &mut S) {
@@ -172,38 +228,45 @@ fn c28_text_roundtrip_ruid_body<S: Src>(s: &mut S) {
 }
 harness!(c28_text_roundtrip_ruid, 70, c28_text_roundtrip_ruid_body);
 
-fn any_small_id<S: Src>(s: &mut S) -> NonFungibleLocalId {
-    let kind = s.u8();
-    let d: [u8; 3] = s.bytes::<3>();
-    let n = s.u8() as usize;
-    s.assume(1 <= n && n <= 3);
-    match kind {
-        0 => { let mut i = 0; while i < n { s.assume(ok_byte(d[i])); i += 1; }
-               NonFungibleLocalId::string(core::str::from_utf8(&d[..n]).unwrap()).unwrap() }
-        1 => NonFungibleLocalId::integer(s.u64()),
-        2 => NonFungibleLocalId::bytes(d[..n].to_vec()).unwrap(),
-        _ => NonFungibleLocalId::ruid(s.bytes::<32>()),
-    }
-}
-
-/// C28 binary round trip (BOUNDED: string and bytes ids of 1..=3 elements; integer and RUID ids are
-/// unbounded): `to_vec` then `decode_body_common` returns the same id and consumes exactly the encoding.
-fn c28_binary_roundtrip_body<S: Src>(s: &mut S) {
-    let id = any_small_id(s);
+fn check_binary_roundtrip(id: NonFungibleLocalId) {
     let enc = id.to_vec();
     let mut dec = ScryptoDecoder::new(&enc, 1);
     let back = NonFungibleLocalId::decode_body_common(&mut dec);
     assert!(back == Ok(id));
     assert!(dec.check_end().is_ok());
 }
-harness!(c28_binary_roundtrip, 40, c28_binary_roundtrip_body);
+/// C28 binary round trip, string ids (BOUNDED: 1..=2 characters): `to_vec` then `decode_body_common`
+/// returns the same id and consumes exactly the encoding.
+fn c28_binary_roundtrip_string_body<S: Src>(s: &mut S) {
+    let d: [u8; 2] = s.bytes::<2>();
+    let n = s.u8() as usize;
+    s.assume(1 <= n && n <= 2);
+    let mut i = 0;
+    while i < n { s.assume(ok_byte(d[i])); i += 1; }
+    check_binary_roundtrip(NonFungibleLocalId::string(ascii_str(&d[..n])).unwrap());
+}
+harness!(c28_binary_roundtrip_string, 6, c28_binary_roundtrip_string_body);
+/// C28 binary round trip, integer ids (complete for this variant: every u64)
+fn c28_binary_roundtrip_integer_body<S: Src>(s: &mut S) { check_binary_roundtrip(NonFungibleLocalId::integer(s.u64())); }
+harness!(c28_binary_roundtrip_integer, 10, c28_binary_roundtrip_integer_body);
+/// C28 binary round trip, bytes ids (BOUNDED: 1..=2 arbitrary bytes)
+fn c28_binary_roundtrip_bytes_body<S: Src>(s: &mut S) {
+    let d: [u8; 2] = s.bytes::<2>();
+    let n = s.u8() as usize;
+    s.assume(1 <= n && n <= 2);
+    check_binary_roundtrip(NonFungibleLocalId::bytes(d[..n].to_vec()).unwrap());
+}
+harness!(c28_binary_roundtrip_bytes, 6, c28_binary_roundtrip_bytes_body);
+/// C28 binary round trip, RUID ids (complete for this variant: all 32 bytes symbolic)
+fn c28_binary_roundtrip_ruid_body<S: Src>(s: &mut S) { check_binary_roundtrip(NonFungibleLocalId::ruid(s.bytes::<32>())); }
+harness!(c28_binary_roundtrip_ruid, 34, c28_binary_roundtrip_ruid_body);
 
-/// C28 binary decoder (BOUNDED: every input of <= 5 bytes): `decode_body_common` never panics; an
+/// C28 binary decoder (BOUNDED: every input of <= 4 bytes): `decode_body_common` never panics; an
 /// accepted input denotes a VALID id whose own encoding is exactly the consumed prefix (unique encoding).
 fn c28_binary_decode_total_body<S: Src>(s: &mut S) {
-    let b: [u8; 5] = s.bytes::<5>();
+    let b: [u8; 4] = s.bytes::<4>();
     let len = s.u8() as usize;
-    s.assume(len <= 5);
+    s.assume(len <= 4);
     let mut dec = ScryptoDecoder::new(&b[..len], 1);
     if let Ok(id) = NonFungibleLocalId::decode_body_common(&mut dec) {
         match &id {
@@ -218,7 +281,7 @@ fn c28_binary_decode_total_body<S: Src>(s: &mut S) {
         while i < consumed { assert!(enc[i] == b[i]); i += 1; }
     }
 }
-harness!(c28_binary_decode_total, 8, c28_binary_decode_total_body);
+harness!(c28_binary_decode_total, 6, c28_binary_decode_total_body);
 
 /// C28 constructors (BOUNDED: lengths 0..=66 with symbolic content would be too wide for CBMC; here the
 /// LENGTH is symbolic in 0..=66 and the content is zero bytes): `NonFungibleLocalId::bytes` is Ok iff 1 <= len <= 64.
@@ -236,11 +299,55 @@ harness!(c28_constructors_bytes, 70, c28_constructors_bytes_body);
 #[cfg(all(test, not(kani)))]
 mod concrete_tests {
     use super::*;
-    /// sanity: every harness body runs on all-zero input under plain cargo test (assumptions may cut it short)
+    const ALPHABET: [u8; 18] = [b'#', b'<', b'>', b'[', b']', b'{', b'}', b'0', b'1', b'9', b'a', b'F', b'g', b'_', b'+', b' ', 0xC3, 0xA9];
+    /// plain `cargo test` sanity run of the harness bodies (same code Kani verifies) over a sample alphabet:
+    /// the reference grammar in this file agrees with the real parser on every sampled input
     #[test]
-    fn bodies_run_concretely() {
-        for h in ["c28_from_str_len6", "c28_integer_text_noncanonical", "c28_binary_decode_total", "c28_constructors_bytes"] {
-            let _ = std::panic::catch_unwind(|| run_replay(h, vec![]));
+    fn harness_bodies_hold_on_sample_inputs() {
+        let mut runs = 0u32;
+        for &a in &ALPHABET { for &b in &ALPHABET { for &c in &ALPHABET {
+            for len in 0..=3u8 {
+                if a < 0x80 && b < 0x80 && c < 0x80 {
+                    let _ = std::panic::catch_unwind(|| c28_from_str_unbracketed_body(&mut ReplaySrc::new(vec![vec![a], vec![b], vec![c], vec![len]])))
+                        .map_err(|e| if e.downcast_ref::<AssumptionViolated>().is_none() { std::panic::resume_unwind(e) });
+                    c28_from_str_ruid_short_body(&mut ReplaySrc::new(vec![vec![a], vec![b], vec![c], vec![len]]));
+                }
+                if a < 0x80 && b < 0x80 && c < 0x80 {
+                    c28_from_str_integer_body(&mut ReplaySrc::new(vec![vec![a], vec![b], vec![c], vec![len]]));
+                    c28_from_str_string_body(&mut ReplaySrc::new(vec![vec![a], vec![b], vec![c], vec![len]]));
+                }
+                c28_binary_decode_total_body(&mut ReplaySrc::new(vec![vec![len], vec![a % 4], vec![b], vec![c], vec![4]]));
+                runs += 4;
+            }
+            if a < 0x80 && b < 0x80 && c < 0x80 { for &d in &[b'0', b'a', b'G', b'F'] { for len in 0..=4u8 {
+                c28_from_str_bytes_body(&mut ReplaySrc::new(vec![vec![a], vec![b], vec![c], vec![d], vec![len]]));
+                runs += 1;
+            } } }
+        } } }
+        for lead in [0xC2u8, 0xC3, 0xDF] { for cont in [0x80u8, 0xA9, 0xBF] { for &o in &ALPHABET { for &x in &ALPHABET { for flags in 0..4u8 {
+            if o < 0x80 && x < 0x80 {
+                c28_from_str_non_ascii_body(&mut ReplaySrc::new(vec![vec![lead], vec![cont], vec![o], vec![x], vec![flags & 1], vec![flags >> 1]]));
+            }
+        } } } } }
+        for v in [0u64, 1, 9, 10, 99, 100, 999] {
+            c28_text_roundtrip_integer_body(&mut ReplaySrc::new(vec![v.to_le_bytes().to_vec()]));
+            c28_binary_roundtrip_integer_body(&mut ReplaySrc::new(vec![v.to_le_bytes().to_vec()]));
         }
+        c28_binary_roundtrip_integer_body(&mut ReplaySrc::new(vec![u64::MAX.to_le_bytes().to_vec()]));
+        for &a in &[b'a', b'Z', b'_', b'0'] { for n in 1..=2u8 {
+            c28_text_roundtrip_string_body(&mut ReplaySrc::new(vec![vec![a], vec![b'q'], vec![n]]));
+            c28_binary_roundtrip_string_body(&mut ReplaySrc::new(vec![vec![a], vec![b'q'], vec![n]]));
+            c28_text_roundtrip_bytes_body(&mut ReplaySrc::new(vec![vec![a], vec![0xff], vec![n]]));
+            c28_binary_roundtrip_bytes_body(&mut ReplaySrc::new(vec![vec![a], vec![0xff], vec![n]]));
+        } }
+        let ruid: Vec<Vec<u8>> = (0..32u8).map(|i| vec![i.wrapping_mul(37)]).collect();
+        c28_text_roundtrip_ruid_body(&mut ReplaySrc::new(ruid.clone()));
+        c28_binary_roundtrip_ruid_body(&mut ReplaySrc::new(ruid));
+        // the u64 boundary: 18446744073709551615 accepted, 18446744073709551616 rejected
+        for digits in ["18446744073709551615", "18446744073709551616", "99999999999999999999", "10000000000000000000"] {
+            c28_integer_text_20_digits_body(&mut ReplaySrc::new(digits.bytes().map(|b| vec![b]).collect()));
+        }
+        for n in [0u8, 1, 64, 65, 66] { c28_constructors_bytes_body(&mut ReplaySrc::new(vec![vec![n]])); }
+        println!("sample runs: {}", runs);
     }
 }
